@@ -22,7 +22,7 @@ def job_threads(args):
     set_schedule(None)
     sched = args.get("sched") or {}
     baton = Baton(len(specs), rng=random.Random(sched.get("seed", 0)), mean_gap=sched.get("mean_gap", 50),
-                  p_target=sched.get("p_target", 0.0), replay=args.get("replay"))
+                  p_target=sched.get("p_target", 0.0), replay=args.get("replay"), p_first=sched.get("p_first", 0.0))
     fns = [(lambda s=s: outcome(full, s["models"], s["options"], s["options"].get("structure", "flat")))
            for s in specs]
     results = baton.run(fns, timeout=args.get("timeout", 100))
@@ -43,6 +43,12 @@ def make_run(seed, i):
     # variations inside one framework family (different max_literals / converters) - the state in which shared
     # mutable class-level or process-level data would be overwritten by a neighbour
     same_doc = n >= 2 and rng.random() < 0.3
+    shared_registry = same_doc and seeds.derive(seed, PROP, i, "registry", 0).random() < 0.5
+    if shared_registry and not shared_nested:
+        # every thread resolves unions of string pseudo-types (int-like next to float-like strings) through the
+        # process-global default registry: the state in which lazily built registry data would be observed half-built
+        fixed = dict(scalar_kinds=["str_int", "str_float", "str_int", "str_float", "str_bool", "str_plain"], p_hetero=0.8,
+                     p_null=0.0, p_container=0.0, width=rng.randint(2, 5), samples=rng.randint(3, 6), p_self=0.0)
     for t in range(n):
         w = gen_workload(seeds.derive(seed, PROP, i, "thread", 0 if same_doc else t), **fixed)
         o = dict(w["options"])
@@ -57,10 +63,13 @@ def make_run(seed, i):
                 o["convert_unicode"] = not o["convert_unicode"]
             if vr.random() < 0.3:
                 o["structure"] = vr.choice(["flat", "nested"])
+        if shared_registry or (not same_doc and seeds.derive(seed, PROP, i, "registry", t).random() < 0.35):
+            # the process-global default string-type registry, shared by every thread that does not pass its own
+            o["str_types"] = "default"
         specs.append({"models": w["models"], "options": o})
     srng = seeds.derive(seed, PROP, i, "schedule")
     sched = {"seed": srng.getrandbits(48), "mean_gap": srng.choice([2, 3, 10, 30, 100, 300, 1000, 3000]),
-             "p_target": srng.choice([0.0, 0.2, 0.5])}
+             "p_target": srng.choice([0.0, 0.2, 0.5]), "p_first": srng.choice([0.0, 0.3, 0.7])}
     return {"specs": specs, "sched": sched}
 
 
